@@ -40,6 +40,14 @@ def run(tier, v, wd, replay=None):
         if r.violated:
             raise vlib.Infra("GroupSelect.tla violates %s in the model (bfs)" % r.violated)
         out.write(open(part).read())
+        # exhaustive: every 5-event history over 2 nodes x DNS-UDP of both families that ends in a non-strict selection
+        # (the fallback to the other family must stay inside the DNS-UDP health domain)
+        part = gfile + ".fam"
+        r = vlib.tlc(wd, "GroupSelect", "GroupSelect_fam.cfg", emit_to=part, timeout=1500)
+        v.add_tlc(r)
+        if r.violated:
+            raise vlib.Infra("GroupSelect.tla violates %s in the model (fam)" % r.violated)
+        out.write(open(part).read())
     run_vectors(v, wd, repo, "./component/outbound/", "TestVerifC15Group", gfile, timeout=900, outname="out-g.json")
     v.assumptions += ["group level: health notifications through ReportUnavailableForced / MarkAliveForReloadFallback, selection through SelectWithExclusionResult; which alive node a min policy prefers is judged at set level only",
                       "set level (AliveDialerSet = one group x network type); latencies in units of 10ms; MinLastLatency and Random policies",
